@@ -22,7 +22,7 @@ def stepLine (c : Cur) (line : String) : Cur × String :=
     match parseOp ts with
     | some op =>
       let r := step c.dag c.st op
-      let hd := s!"{resTok r.2} {writesTok r.1.log}"
+      let hd := s!"{callTok c.st op r.2} {writesTok r.1.log}"
       let pts := (List.range (r.1.log.length + 1)).map fun n => recoveredLine c.dag (crashReopen c.dag c.st op n)
       ({ c with st := r.1 }, " :: ".intercalate (hd :: pts))
     | none => (c, "bad-op")
@@ -32,7 +32,33 @@ def stepLine (c : Cur) (line : String) : Cur × String :=
       let r := step c.dag c.st op
       let n := min k r.1.log.length
       let rec' := crashReopen c.dag c.st op n
-      ({ c with st := rec' }, s!"{resTok r.2} {writesTok r.1.log} :: {recoveredLine c.dag rec'}")
+      ({ c with st := rec' }, s!"{callTok c.st op r.2} {writesTok r.1.log} :: {recoveredLine c.dag rec'}")
+    | _, _ => (c, "bad-op")
+  | "crash2" :: n :: j :: ts =>
+    match parseOp ts, n.toNat?, j.toNat? with
+    | some op, some n, some j =>
+      let r := step c.dag c.st op
+      let n := min n r.1.log.length
+      let r1 := crashReopen c.dag c.st op n
+      let j := min j r1.log.length
+      let r2 := crashReopen2 c.dag c.st op n j
+      ({ c with st := r2 },
+        s!"{callTok c.st op r.2} {writesTok r.1.log} :: rb1={writesTok r1.log} :: {recoveredLine c.dag r2}")
+    | _, _, _ => (c, "bad-op")
+  | ["plant", cs, ms] =>
+    match cs.toNat?, ms.toNat? with
+    | some cid, some m =>
+      let r := plant c.st cid (if m == 1 then .direct else .recursive)
+      ({ c with st := r.1 }, s!"planted={r.2} {dumpLight c.dag r.1}")
+    | _, _ => (c, "bad-op")
+  | "io" :: k :: ts =>
+    match parseOp ts, k.toNat? with
+    | some op, some k =>
+      let r := stepIO c.dag c.st op k
+      let tok := match r.res with | some x => callTok c.st op x | none => "ioerr"
+      let rec' := reopenStore r.st.store r.st.nextId r.st.present
+      ({ c with st := rec' },
+        s!"{tok} {writesTok r.st.log} :: live {dumpLight c.dag r.st} :: {recoveredLine c.dag rec'}")
     | _, _ => (c, "bad-op")
   | _ => (c, "bad-op")
 
